@@ -113,6 +113,9 @@ pub fn campaign(target: &str, prop: &str, opts: &Opts, runs: u64) -> Result<Valu
 
 /// Replay a saved crashing input (strict mode).
 pub fn replay(target: &str, prop: &str, artifact: &str) -> Result<bool, String> {
+    if !std::path::Path::new(artifact).is_file() {
+        return Err(format!("replay file {} does not exist", artifact));
+    }
     build_target(target)?;
     let mut c = cargo_fuzz(&["run", target, "--fuzz-dir", "fuzz", artifact]);
     c.env("VERIF_FUZZ_PROP", prop).env("VERIF_FUZZ_STRICT", "1").env("ASAN_OPTIONS", "detect_leaks=0:abort_on_error=1");
